@@ -1742,12 +1742,6 @@ func (p *parser) captureKeyForObjectRest(originalKey js_ast.Expr) (finalKey js_a
 			}}
 		}
 
-	case *js_ast.EIdentifier:
-		capturedKey = func() js_ast.Expr {
-			p.recordUsage(k.Ref)
-			return p.callRuntime(loc, "__restKey", []js_ast.Expr{{Loc: loc, Data: &js_ast.EIdentifier{Ref: k.Ref}}})
-		}
-
 	default:
 		// If it's an arbitrary expression, it probably has a side effect.
 		// Stash it in a temporary reference so we don't evaluate it twice.
